@@ -115,6 +115,7 @@ class World:
         self.hook = None                # callable(event name) at durable-state step boundaries
         self.newpin_behaviour = "accept"   # accept|refuse|swerr|comm|timeout|ack-lost
         self.last_answer = None         # bytes of the last normal answer, None after a fault
+        self.answers = []               # (exchange ordinal, answer bytes | None after a fault)
         self.extra_handlers = {}
         self.admin_handler = None       # fn(world, apdu) for CLA 0xE0 (endorsement set-up)        # cmd -> fn(world, data, apdu) for admin-only commands
         self.__dict__.update(kw)
@@ -146,6 +147,7 @@ class Dongle:
         if f is None:
             f = w.faults.get(str(k))
         w.last_answer = None
+        w.answers.append([k, None])
         if f == "write":
             w.log.append(("fault", f, apdu))
             raise link_fault(f)
@@ -187,11 +189,13 @@ class Dongle:
             w.log.append(("fault", f, apdu))
             raise link_fault(f)
         w.last_answer = bytes(r)
+        w.answers[-1][1] = bytes(r)
         if isinstance(f, (tuple, list)) and f[0] == "op":
             w.log.append(("fault", "op", apdu))
             r = bytes(r[:2]) + bytes([f[1]]) + bytes(f[2] if len(f) > 2 and f[2] is not None
                                                      else r[3:])
             w.last_answer = r
+            w.answers[-1][1] = bytes(r)
             return bytearray(r)
         if isinstance(f, (tuple, list)) and f[0] == "short":
             w.log.append(("fault", "short", apdu))
